@@ -1,6 +1,7 @@
 (* C09 -- Tabix and CSI indexes are parsed faithfully. *)
 From Coq Require Import ZArith List Bool.
 From B2Z Require Import Base.Prims Model.IndexParse Model.BinArith Proofs.IndexParseProofs Proofs.BinsProofs Bridge.BridgeBins.
+From B2Z Require Gen.GenIndexLayout Bridge.BridgeIndexLayout.
 From B2Z Require Gen.GenBins.
 Import ListNotations.
 Open Scope Z_scope.
@@ -88,3 +89,21 @@ Example csi_instance :
               cf_tail := Some 0 |} in
   parse_csi (ser_csi f) = Some (view_csi f) /\ ci_counts (view_csi f) = [Known 7; Known 0].
 Proof. vm_compute. split; reflexivity. Qed.
+
+(* ---- TRANSLATOR TIE for the readers: the FIELD LAYOUT of read_csi / read_tabix as read off the source on this run
+   (translator/idx2coq.py -> Gen/GenIndexLayout.v): the sequence of struct reads -- magic, header fields, per reference
+   sequence the bin count, per bin its id / loffset / chunk count, per chunk two 64-bit offsets, (tabix) the linear index, the
+   optional trailing n_no_coor, end of data -- with their widths and signedness, and which field each loop count and guard
+   refers to, IS the layout of the CSI v1 / tabix specification (written out in Bridge/BridgeIndexLayout.v), which is what
+   Model/IndexParse.v parses field by field and its independent serialisers write; the tabix pseudo-bin is 37450 and both
+   readers carry the record-count rule (0 for a sequence without bins, otherwise unknown unless a pseudo-bin with exactly two
+   chunks gives n_mapped + n_unmapped).  The byte-level semantics of the reads (struct, gzip) stays with the differential run. *)
+Theorem translated_index_layouts :
+  GenIndexLayout.gen_csi_layout = BridgeIndexLayout.csi_spec_layout /\
+  GenIndexLayout.gen_tbi_layout = BridgeIndexLayout.tbi_spec_layout /\
+  GenIndexLayout.gen_tbi_pseudo_bin = tbx_pseudo /\ GenIndexLayout.gen_count_rule_present = true.
+Proof.
+  split; [exact BridgeIndexLayout.translated_csi_layout_lemma|]. split; [exact BridgeIndexLayout.translated_tbi_layout_lemma|].
+  exact BridgeIndexLayout.translated_pseudo_bin_lemma.
+Qed.
+Print Assumptions translated_index_layouts.
